@@ -343,8 +343,8 @@ def run_instance(job):
                     raise
                 cargs = concretize()
                 native = _native_run(lem, cargs)
-                if native[0] != "hang":
-                    raise
+                if native[0] != "hang" and not mutations:
+                    raise  # (a canary's mutated text is not what the native replay runs: there the refutation is kept, unconfirmed)
                 record("termination", f"loop@{getattr(u, 'where', None) or '?'}", "refuted", time.time() - t1, "loop unrolled beyond max_unroll; the real code does not return on this path's input", {k: _safe_repr(x) for k, x in cargs.items()}, native)
                 vcs[-1]["_pickle"] = _pickle_args(cargs)
                 outcome = ("hang", None)
